@@ -137,4 +137,32 @@ ParseHeaderLine(h, line) ==
                            IF e.ok THEN Ok(h) ELSE [res |-> "fatal", h |-> h, err |-> e.err]
             [] OTHER -> Ok([h EXCEPT !.custom = InsertCustom(@, Trim(name), tv)])
 
+(***************************************************************************)
+(* Headers::try_from: the whole block must be UTF-8; lines are the pieces  *)
+(* between CR LF; parsing stops at the first empty line; only              *)
+(* UnsupportedValue is tolerated.  (C15: block parsing = folding line      *)
+(* parsing.)                                                               *)
+(***************************************************************************)
+RECURSIVE HeaderBlockFrom(_, _, _)
+HeaderBlockFrom(s, i, h) ==
+    LET n == Len(s)
+        p == FindCRLF(s, i, n)
+        line == IF p = 0 THEN Slice(s, i, n) ELSE Slice(s, i, p - 1)
+    IN IF Len(line) = 0 THEN [ok |-> TRUE, h |-> h, err |-> NoErr]
+       ELSE LET r == ParseHeaderLine(h, line) IN
+            IF r.res = "fatal" THEN [ok |-> FALSE, h |-> DefaultHeaders, err |-> r.err]
+            ELSE IF p = 0 THEN [ok |-> TRUE, h |-> r.h, err |-> NoErr]
+            ELSE HeaderBlockFrom(s, p + 2, r.h)
+
+ParseHeaderBlock(s) ==
+    IF ~IsUtf8(s) THEN [ok |-> FALSE, h |-> DefaultHeaders, err |-> E_InvalidRequest]
+    ELSE HeaderBlockFrom(s, 1, DefaultHeaders)
+
+\* folding parse_header_line over a list of lines from the default headers
+RECURSIVE FoldLines(_, _, _)
+FoldLines(h, lines, acc) ==
+    IF lines = <<>> THEN [h |-> h, results |-> acc]
+    ELSE LET r == ParseHeaderLine(h, Head(lines)) IN
+         FoldLines(r.h, Tail(lines), Append(acc, [k |-> r.res, e |-> r.err]))
+
 =============================================================================
